@@ -13,6 +13,11 @@ hint = {
  "c": "Prefer a change whose effect depends on an INTERACTION of two features (for example an addressing prefix together with a counted instruction, an interrupt arriving while halted, a snapshot taken during a debounce window, a label defined in another section, a page boundary together with a stack operation); avoid the most obvious single arithmetic or table site, and avoid sites where the surrounding code already looks inconsistent.",
 }
 hint["d"] = hint["c"]
+hint["e"] = ("Prefer a change in a RARELY EXERCISED configuration, mode or edge path: a constructor option or non-default threshold/polarity, an optional "
+             "component that is absent, an empty queue, a zero or maximal length, the last address of a region, wrap-around of a counter or address, "
+             "an error path, the second of two consecutive operations of the same kind. Choose the core (Python or Rust) and the site that you judge "
+             "LEAST likely to be caught by differential testing of one core against the other or by a simple round-trip test; avoid the most obvious "
+             "arithmetic or table site.")
 hint = hint[variant]
 print(f"""You are helping test a verification framework for the repository mblsha/binja-esr (a Binary Ninja plugin + emulator for the Sharp SC62015 CPU: decoder/encoder, LLIL lifter, assembler, PC-E500 machine emulator in Python under pce500/, and a Rust core under sc62015/core).
 
